@@ -331,6 +331,40 @@ Definition block_ok (literal : bool) (b : block_layout) (minCol : Z) : bool :=
   items_ok literal (bl_items b) &&
   forallb no_newline_b (bl_after b).
 
+(** Folded blocks WITH blank lines (the common "paragraphs" layout of annotations; positions are right since fix
+    6c7f5de).  YAML line folding: a single line break between two non-blank lines becomes a space; [j >= 1] blank lines
+    between them become [j] line breaks (the break before the first blank line is dropped).  [pb] = the previous line
+    was blank.  More-indented lines (bodies starting with a blank) are not described by this relation. *)
+Fixpoint vsuffix_fold (pb : bool) (items : list bitem) (tail : nat) : string :=
+  match items with
+  | [] => repeat_char newline tail
+  | Blank _ :: r => String newline (vsuffix_fold true r tail)
+  | Body b :: r => ((if pb then EmptyString else String space EmptyString) ++ b ++ vsuffix_fold false r tail)%string
+  end.
+
+Definition starts_with_fold_char (s : string) : bool :=
+  match s with String c _ => is_fold_char c | EmptyString => true end.
+
+Fixpoint fold_items_ok (items : list bitem) : bool :=
+  match items with
+  | [] => true
+  | Body b :: r => has_nonspace b && negb (starts_with_fold_char b) && fold_items_ok r
+  | Blank _ :: r => match r with [] => false | _ => true end && fold_items_ok r
+  end.
+
+Definition bl_value_fold (b : block_layout) : string :=
+  (bl_first b ++ vsuffix_fold false (bl_items b) (bl_tail b))%string.
+
+Definition bl_node_fold (b : block_layout) : snode :=
+  mksn (bl_value_fold b) (Z.of_nat (List.length (bl_pre b)) + 1) (slen (bl_keyline_pre b) + 1) true EmptyString false.
+
+Definition fold_ok (b : block_layout) (minCol : Z) : bool :=
+  negb (all_newlines (bl_value_fold b)) &&
+  has_nonspace (bl_first b) && negb (starts_with_fold_char (bl_first b)) &&
+  (minCol - 1 <=? Z.of_nat (bl_indent b)) && (1 <=? minCol) &&
+  fold_items_ok (bl_items b) &&
+  forallb no_newline_b (bl_after b).
+
 (** Multi-line plain scalar: first segment on the key line, every further segment on its own line
     [spaces k ++ segment] with [k >= minCol - 1] (g1) and no trailing blanks (g2: the line ends with the
     segment); segments are non-blank and do not start with a blank; they are joined by single spaces. *)
